@@ -47,6 +47,8 @@ type SyncScenario struct {
 	// coming tip, TwinFirst+1 heights above the store head, is accepted over gossip while a Head() request
 	// answering the canonical header of that height is in flight. Either may keep the height - never both.
 	TwinFirst int `json:"twin_first,omitempty"`
+	// TwinLate: the Head() answer arrives after the twin has been synced (2 s against 300 ms of virtual time)
+	TwinLate bool `json:"twin_late,omitempty"`
 	// Sched, when set, selects the schedule engine (c03sched_test.go); the other fields are unused then.
 	Sched *SyncSchedScenario `json:"sched,omitempty"`
 }
@@ -109,6 +111,7 @@ func genSync(adversarial bool) func(t *rapid.T) SyncScenario {
 		}
 		if adversarial {
 			s.TwinFirst = rapid.SampledFrom([]int{0, 0, 0, 1, 2, 3, 6}).Draw(t, "twinfirst")
+			s.TwinLate = s.TwinFirst > 0 && rapid.Bool().Draw(t, "twinlate")
 		}
 		return s
 	}
@@ -632,7 +635,7 @@ func runSync(t *testing.T, s SyncScenario, c03 bool) (res Result) {
 		}
 
 		if c03 && s.TwinFirst > 0 {
-			if e.twinFirst(ctx, &res, s.TwinFirst, checkSafety) {
+			if e.twinFirst(ctx, &res, s.TwinFirst, s.TwinLate, checkSafety) {
 				res.NonTrivial = true
 				res.label("adv=twin_first")
 				synctest.Wait()
@@ -740,8 +743,13 @@ func runSync(t *testing.T, s SyncScenario, c03 bool) (res Result) {
 // Syncer keeps for height h, the Store must hold exactly one header per height: canonical below h, F or T at h,
 // nothing else in the datastore. The canonical chain cannot grow past F, so the history ends here.
 // Reports true when the event ran to its verdict-free end (false: skipped, or a violation was recorded).
-func (e *syncEnv) twinFirst(ctx context.Context, res *Result, k int, checkSafety func(string) bool) bool {
-	const tag = "terminal twin_first"
+func (e *syncEnv) twinFirst(ctx context.Context, res *Result, k int, late bool, checkSafety func(string) bool) bool {
+	tag := "terminal twin_first"
+	hd, rd := 300*time.Millisecond, 2*time.Second
+	if late {
+		tag = "terminal twin_first(late answer)"
+		hd, rd = 2*time.Second, 300*time.Millisecond
+	}
 	chain := e.chain
 	e.getter.set(func() { e.getter.RangeMax, e.getter.RangeErrs, e.getter.RangeDelay, e.getter.HeadMode = 0, 0, 0, "" })
 	if !e.quiesce(600) {
@@ -763,7 +771,7 @@ func (e *syncEnv) twinFirst(ctx context.Context, res *Result, k int, checkSafety
 	F := T.Clone()
 	F.Salt = 4545
 	F.Seal()
-	e.getter.set(func() { e.getter.HeadDelay, e.getter.RangeDelay = 300*time.Millisecond, 2*time.Second })
+	e.getter.set(func() { e.getter.HeadDelay, e.getter.RangeDelay = hd, rd })
 	var wg sync.WaitGroup
 	wg.Add(1)
 	var hh *vh.Header
@@ -876,6 +884,9 @@ func (e *syncEnv) twinFirst(ctx context.Context, res *Result, k int, checkSafety
 	}
 	if verr == nil {
 		res.label("twin_first_accepted")
+	}
+	if late {
+		res.label("twin_first_late_answer")
 	}
 	if head.H == h {
 		if chain.IsCanonical(head) {
